@@ -1,3 +1,6 @@
+//go:build c08pieces
+// +build c08pieces
+
 package main
 
 import (
@@ -105,11 +108,6 @@ func randState(rnd *hlib.Rand) (cur, pot map[string][]TP, all []TP) {
 		}
 	}
 	return
-}
-
-func piece(op, ans string) {
-	run.Emit(op, ans)
-	run.Count("piece-" + strings.Fields(op)[0])
 }
 
 func doIsBal(curS, potS string) {
@@ -297,22 +295,6 @@ func doMoves(curS, scriptS string) {
 	}))
 }
 
-// doF12: which variant of the "previous owner" branch does the tree have? (observed on the witness)
-func doF12() {
-	plan, st := callPlan("sticky", f12Witness())
-	variant, ans := "guarded", "rejected"
-	if st == "ok" {
-		a := planAsg(plan)
-		if ownerOf(a, []string{"A", "B", "C"}, TP{"t1", 0}) == "" {
-			variant, ans = "weak", "accepted unassigned=t1/0"
-		}
-	} else {
-		ans = st
-	}
-	run.Set("sticky_previous_owner_branch", variant)
-	piece("f12 "+variant, ans)
-}
-
 // doCGTopics: what consumerGroup.balance hands to the strategy: op `cgtopics <members> <topics>`
 func doCGTopics(ms, ts string) {
 	g := parseGroup(ms, ts)
@@ -322,6 +304,15 @@ func doCGTopics(ms, ts string) {
 		got, err := sarama.VerifGroupBalanceTopics(members, topics)
 		if err != nil {
 			return "err"
+		}
+		if PROP == "C08" {
+			for _, m := range g.Members {
+				for _, t := range m.Topics {
+					if _, ok := got[t]; !ok {
+						run.IOFail("group-balance-drops-subscribed-topic", op, "topic "+t+" is subscribed by "+m.Name+" but not handed to the strategy, and no error")
+					}
+				}
+			}
 		}
 		names := make([]string, 0, len(got))
 		for t := range got {
@@ -451,4 +442,28 @@ func replayPiece(t []string, l string) {
 	case "cgtopics":
 		doCGTopics(t[1], t[2])
 	}
+}
+
+func toV(a map[string][]TP) map[string][]sarama.VerifTP {
+	out := make(map[string][]sarama.VerifTP, len(a))
+	for m, l := range a {
+		v := make([]sarama.VerifTP, len(l))
+		for i, p := range l {
+			v[i] = sarama.VerifTP{Topic: p.T, Partition: p.P}
+		}
+		out[m] = v
+	}
+	return out
+}
+
+func fromV(a map[string][]sarama.VerifTP) map[string][]TP {
+	out := make(map[string][]TP, len(a))
+	for m, l := range a {
+		v := make([]TP, len(l))
+		for i, p := range l {
+			v[i] = TP{p.Topic, p.Partition}
+		}
+		out[m] = v
+	}
+	return out
 }
